@@ -75,6 +75,11 @@ class Probe:
             return self.cond_truth.get(j, True)
         return True
 
+    def tcond(self, j, after, idle, time):
+        self.log.append(('tcond', j, after, idle, time))
+        self._hook('cond')
+        return True
+
     def obs(self, tag, time):
         self.log.append(('obs', tag, time))
         return True
@@ -96,8 +101,8 @@ class SimClock(Clock):
         assert d >= 0
         self._t += d
 
-    def set(self, t):
-        self._t = t
+    def peek_next(self):
+        return self._t
 
 
 class SkewClock(Clock):
@@ -119,3 +124,6 @@ class SkewClock(Clock):
 
     def advance(self, d):
         self._t += d
+
+    def peek_next(self):
+        return self._t + self.tick
